@@ -103,3 +103,47 @@ func FsPath(path string, flags FsFlags) (afero.Fs, error) {
 
 	return afero.NewBasePathFs(afero.NewOsFs(), path), nil
 }
+
+// validObjectKey reports whether key maps to a file of its own below the
+// bucket directory: a relative, slash separated path without empty, "." or
+// ".." segments. Any other key would be cleaned by path.Join into the path of
+// a different key, of the bucket directory itself or of something outside the
+// bucket.
+func validObjectKey(key string) bool {
+	if key == "" {
+		return false
+	}
+	for _, segment := range strings.Split(key, "/") {
+		if segment == "" || segment == "." || segment == ".." {
+			return false
+		}
+	}
+	return true
+}
+
+// errUnsupportedKey is returned for keys the filesystem layout cannot hold.
+func errUnsupportedKey(key string) error {
+	return gofakes3.ErrorMessagef(gofakes3.ErrInvalidArgument, "key %q cannot be stored by a filesystem backend", key)
+}
+
+// keyPathConflict reports whether objectPath (slash separated, below root on
+// fs) cannot hold an object because it is a directory (the prefix of other
+// keys) or because one of its parent directories is an object.
+func keyPathConflict(fs afero.Fs, root, objectPath string) bool {
+	if stat, err := fs.Stat(filepath.FromSlash(objectPath)); err == nil && stat.IsDir() {
+		return true
+	}
+	for dir := pathDir(objectPath); dir != root && dir != "." && dir != "/" && dir != ""; dir = pathDir(dir) {
+		if stat, err := fs.Stat(filepath.FromSlash(dir)); err == nil && !stat.IsDir() {
+			return true
+		}
+	}
+	return false
+}
+
+func pathDir(p string) string {
+	if idx := strings.LastIndexByte(p, '/'); idx >= 0 {
+		return p[:idx]
+	}
+	return "."
+}
